@@ -1,68 +1,124 @@
 package dxbc
-import ("testing";"os";"fmt";"path/filepath";"sort";"strings"
- "github.com/gogpu/naga"; "github.com/gogpu/naga/ir"; "github.com/gogpu/naga/dxil")
-func stageName(s ir.ShaderStage) string { switch s { case ir.StageVertex: return "vertex"; case ir.StageFragment: return "fragment"; case ir.StageCompute: return "compute"}; return "" }
-func TestDbgCorpus(t *testing.T){
- files,_:=filepath.Glob("/repo/snapshot/testdata/in/*.wgsl")
- rules:=map[string]int{}; ex:=map[string]string{}
- ok,errs,pan,skip:=0,0,0,0
- errKinds:=map[string]int{}
- for _,f:=range files {
-  src,_:=os.ReadFile(f)
-  ast,err:=naga.Parse(string(src)); if err!=nil {skip++;continue}
-  var mod *ir.Module
-  func(){ defer func(){ if r:=recover();r!=nil { mod=nil } }(); mod,err=naga.LowerWithSource(ast,string(src)) }()
-  if err!=nil||mod==nil {skip++;continue}
-  for j:=range mod.EntryPoints {
-   single:=*mod; single.EntryPoints=[]ir.EntryPoint{mod.EntryPoints[j]}
-   for _,sm:=range []dxil.ShaderModel{dxil.SM6_0,dxil.SM6_6} {
-   opts:=dxil.DefaultOptions(); opts.ShaderModel=sm
-   var out []byte; var cerr error; panicked:=false
-   func(){ defer func(){ if r:=recover();r!=nil { panicked=true; fmt.Println("PANIC",filepath.Base(f),mod.EntryPoints[j].Name,r)} }(); out,cerr=dxil.Compile(&single,opts)}()
-   if panicked {pan++;continue}
-   if cerr!=nil {errs++; e:=cerr.Error(); if len(e)>60{e=e[:60]}; errKinds[e]++; continue}
-   ok++
-   c,is:=Analyze(out,Expect{Stage:stageName(mod.EntryPoints[j].Stage),SMMajor:6,SMMinor:int(sm.Minor),SMMinorAtLeast:true,Hash:HashRetail})
-   for _,i:=range is { rules[i.Rule]++; if _,o:=ex[i.Rule];!o { ex[i.Rule]=filepath.Base(f)+"/"+mod.EntryPoints[j].Name+": "+i.Msg } }
-   for _,s:=range c.Info { k:=strings.SplitN(s,":",2)[0]; rules["info "+k]++ ; if _,o:=ex["info "+k];!o {ex["info "+k]=filepath.Base(f)+": "+s}}
-   if os.Getenv("DBG_SUM")!="" { fmt.Println(filepath.Base(f), mod.EntryPoints[j].Name, Summary(c)) }
-   }
-  }
- }
- fmt.Println("ok",ok,"errs",errs,"panics",pan,"skipfiles",skip)
- var ks []string; for k:=range rules {ks=append(ks,k)}; sort.Strings(ks)
- for _,k:=range ks { fmt.Println(rules[k],k,"::",ex[k]) }
- ks=nil; for k:=range errKinds {ks=append(ks,k)}; sort.Strings(ks)
- for _,k:=range ks { fmt.Println("ERR",errKinds[k],k) }
+
+import (
+	"fmt"
+	"os"
+	"path/filepath"
+	"sort"
+	"strings"
+	"testing"
+
+	"github.com/gogpu/naga"
+	"github.com/gogpu/naga/dxil"
+	"github.com/gogpu/naga/ir"
+)
+
+func stageName(s ir.ShaderStage) string {
+	switch s {
+	case ir.StageVertex:
+		return "vertex"
+	case ir.StageFragment:
+		return "fragment"
+	case ir.StageCompute:
+		return "compute"
+	}
+	return ""
 }
-func TestDbgOne(t *testing.T){
- f:=os.Getenv("DBG_FILE"); ep:=os.Getenv("DBG_EP")
- src,_:=os.ReadFile(f)
- ast,err:=naga.Parse(string(src)); if err!=nil {t.Fatal(err)}
- mod,err:=naga.LowerWithSource(ast,string(src)); if err!=nil {t.Fatal(err)}
- for j:=range mod.EntryPoints { if mod.EntryPoints[j].Name!=ep {continue}
-   single:=*mod; single.EntryPoints=[]ir.EntryPoint{mod.EntryPoints[j]}
-   out,cerr:=dxil.Compile(&single,dxil.DefaultOptions()); if cerr!=nil {t.Fatal(cerr)}
-   c:=parseWith(out,func(s string){fmt.Println(s)})
-   for i,ty:=range c.Module.tt.types[:c.Module.tt.nTable] { _=ty; fmt.Printf("type %d = %s\n",i,c.Module.tt.str(i)) }
-   for i,v:=range c.Module.vals { fmt.Printf("v%d kind=%d ty=%s int=%v %d\n",i,v.kind,c.Module.tt.str(v.ty),v.constInt,int64(v.ival))}
-   for _,fn:=range c.Module.Functions { fmt.Printf("func %s v%d proto=%v ty=%s\n",fn.Name,fn.ValueID,fn.IsProto,c.Module.tt.str(fn.TypeID)) }
-   for _,i:=range c.issues { fmt.Println("ISSUE",i) }
-   fmt.Println(Summary(c))
-   if p:=os.Getenv("DBG_OUT");p!="" { os.WriteFile(p,out,0o644) }
- }
+
+// TestNagaCorpus runs the reader over what the backend under test produces
+// for the WGSL corpus.  It only requires that the reader itself never panics;
+// the issue histogram is logged (the property check C18 judges it).
+func TestNagaCorpus(t *testing.T) {
+	files, _ := filepath.Glob("/repo/snapshot/testdata/in/*.wgsl")
+	if len(files) == 0 {
+		t.Skip("no corpus")
+	}
+	rules := map[string]int{}
+	compiled := 0
+	for _, f := range files {
+		src, _ := os.ReadFile(f)
+		var mod *ir.Module
+		func() {
+			defer func() { _ = recover() }()
+			ast, err := naga.Parse(string(src))
+			if err != nil {
+				return
+			}
+			mod, _ = naga.LowerWithSource(ast, string(src))
+		}()
+		if mod == nil {
+			continue
+		}
+		for j := range mod.EntryPoints {
+			single := *mod
+			single.EntryPoints = []ir.EntryPoint{mod.EntryPoints[j]}
+			var out []byte
+			func() {
+				defer func() { _ = recover() }()
+				out, _ = dxil.Compile(&single, dxil.DefaultOptions())
+			}()
+			if out == nil {
+				continue
+			}
+			compiled++
+			c, is := Analyze(out, Expect{Stage: stageName(mod.EntryPoints[j].Stage), SMMajor: 6, SMMinor: 0, SMMinorAtLeast: true, Hash: HashRetail})
+			for _, i := range is {
+				rules[i.Rule]++
+			}
+			for _, s := range c.Info {
+				rules["info "+strings.SplitN(s, ":", 2)[0]]++
+			}
+		}
+	}
+	var ks []string
+	for k := range rules {
+		ks = append(ks, k)
+	}
+	sort.Strings(ks)
+	t.Logf("%d containers analysed", compiled)
+	for _, k := range ks {
+		t.Logf("%5d %s", rules[k], k)
+	}
 }
-func TestDbgList(t *testing.T){
- files,_:=filepath.Glob("/repo/snapshot/testdata/in/*.wgsl")
- for _,f:=range files {
-  src,_:=os.ReadFile(f)
-  ast,err:=naga.Parse(string(src)); if err!=nil {continue}
-  mod,err:=naga.LowerWithSource(ast,string(src)); if err!=nil {continue}
-  for j:=range mod.EntryPoints {
-   single:=*mod; single.EntryPoints=[]ir.EntryPoint{mod.EntryPoints[j]}
-   out,cerr:=dxil.Compile(&single,dxil.DefaultOptions()); if cerr!=nil {fmt.Println("ERR",filepath.Base(f),mod.EntryPoints[j].Name,cerr);continue}
-   _,is:=Analyze(out,Expect{Stage:stageName(mod.EntryPoints[j].Stage),SMMajor:6,SMMinor:0,SMMinorAtLeast:true,Hash:HashRetail})
-   for _,i:=range is { fmt.Println("ISSUE",filepath.Base(f),mod.EntryPoints[j].Name,i) }
-  }
- }
+
+// TestTraceOne is a debugging aid: DBG_FILE=<wgsl> DBG_EP=<entry> prints one
+// line per decoded instruction, the type table and the issues.
+func TestTraceOne(t *testing.T) {
+	f, ep := os.Getenv("DBG_FILE"), os.Getenv("DBG_EP")
+	if f == "" {
+		t.Skip("DBG_FILE not set")
+	}
+	src, _ := os.ReadFile(f)
+	ast, err := naga.Parse(string(src))
+	if err != nil {
+		t.Fatal(err)
+	}
+	mod, err := naga.LowerWithSource(ast, string(src))
+	if err != nil {
+		t.Fatal(err)
+	}
+	for j := range mod.EntryPoints {
+		if mod.EntryPoints[j].Name != ep {
+			continue
+		}
+		single := *mod
+		single.EntryPoints = []ir.EntryPoint{mod.EntryPoints[j]}
+		out, cerr := dxil.Compile(&single, dxil.DefaultOptions())
+		if cerr != nil {
+			t.Fatal(cerr)
+		}
+		c := parseWith(out, func(s string) { fmt.Println(s) })
+		if c.Module != nil {
+			for i := 0; i < c.Module.tt.nTable; i++ {
+				fmt.Printf("type %d = %s\n", i, c.Module.tt.str(i))
+			}
+			for i, v := range c.Module.vals {
+				fmt.Printf("v%d kind=%d ty=%s int=%v %d\n", i, v.kind, c.Module.tt.str(v.ty), v.constInt, int64(v.ival))
+			}
+		}
+		for _, i := range c.issues {
+			fmt.Println("ISSUE", i)
+		}
+		fmt.Println(Summary(c))
+	}
 }
